@@ -47,6 +47,17 @@ func (it *Iterator) M__next__() (res Object, err error) {
 		it.Pos++
 		return res, nil
 	}
+	if list, ok := it.Seq.(*List); ok {
+		// The list may have grown or shrunk since the last call
+		if it.Pos >= len(list.Items) {
+			// Stay finished if the list grows afterwards
+			it.Seq = nil
+			return nil, StopIteration
+		}
+		res = list.Items[it.Pos]
+		it.Pos++
+		return res, nil
+	}
 	index := Int(it.Pos)
 	if I, ok := it.Seq.(I__getitem__); ok {
 		res, err = I.M__getitem__(index)
